@@ -307,7 +307,13 @@ func (r *checkRun) run() int {
 			rep.Obligations = nil
 		}
 		if rep.Unsupported != "" {
-			rep.Obligations = append(rep.Obligations, &Obligation{Name: fc.Key + "#unsupported", Kind: "unsupported", Func: fc.Key, Result: "unsupported", Detail: rep.Unsupported})
+			// the function (as it is now) is outside what the generator can turn into obligations, or its contract can
+			// no longer be read against it (a changed signature): no obligation of this function was decided. On the
+			// committed tree every function under contract is inside the subset, so this can only follow a change to the
+			// code; whether that change breaks the property is for the other obligations and the stand-ins to say.
+			fmt.Printf("UNDECIDED %s: outside the verifier's reach as the code stands (%s); nothing was proved or refuted for this function\n", fc.Key, rep.Unsupported)
+			r.staleContracts = append(r.staleContracts, fc.Key+": unsupported: "+rep.Unsupported)
+			rep.Unsupported = "" // obligations generated before the generator stopped stay: each is about the real code
 		}
 		r.reports = append(r.reports, rep)
 	}
